@@ -15,7 +15,8 @@ class RefDiverged(Exception):
 
 
 class Alg:
-    def __init__(self, zero, one, exact, eps=1e-15, cap=None, metric=None):
+    def __init__(self, zero, one, exact, eps=1e-15, cap=None, metric=None, relative=False):
+        self.relative = relative
         self.zero = zero
         self.one = one
         self.exact = exact
@@ -29,6 +30,14 @@ class Alg:
         if self.exact:
             return False
         d = self.metric(a, b) if self.metric is not None else abs(a - b)
+        if d <= 1e-300:
+            return True
+        if self.relative:
+            try:
+                m = max(abs(float(getattr(a, "score", a))), abs(float(getattr(b, "score", b))))
+            except Exception:
+                m = 1.0
+            return d <= self.eps * m
         return d <= self.eps
 
 
